@@ -43,4 +43,10 @@ PROPS = {
         'exhaustive_part': 'sequences up to the stated length over the 12-shape alphabet',
         'assumptions': [],
     },
+    'C06': {
+        'harness': 'c06',
+        'rule': 'multisets of 0-5 rules matching the request (exception, important, $domain-specific, content type, third-party, $dnsrewrite, $stealth, document-level modifiers, $badfilter) and 0-3 rules matching the referrer (urlblock, genericblock, document, elemhide, important/domain-specific variants, plain exception/block, stealth, $badfilter), plus a targeted family where the referrer is matched by every pair of document-level exceptions; through NewMatchingResult+GetBasicResult, GetDNSBasicRule, and (one case in eight) through Engine.MatchRequest, NetworkEngine.Match and DNSEngine.MatchRequest with the rules split over two lists; the harness additionally re-evaluates every web/dns case under all permutations (up to 130 x 30) and every engine case under swapped and merged lists and flags a class change; non-trivial = at least two rules',
+        'correspondence': 'verdict class and text of the selected rule, implementation vs model (for engine cases the matched rules in engine order are oracle inputs of the model)',
+        'assumptions': ['$replace, $cookie, $csp and $redirect cannot be produced by the text parser (they are rejected as unknown modifiers), so those branches are covered by the theorems only'],
+    },
 }
